@@ -302,6 +302,15 @@ func (t *ftr) fxCall(e ast.Expr) (*fxRes, bool) {
 			return nil, true
 		}
 		return &fxRes{call: ioNS + "writeFile io " + t.fsx() + " " + p + " " + b, outs: []string{"fs"}, results: []*ty{tErr}}, true
+	case "os.ReadDir":
+		if len(c.Args) != 1 || !t.needFS(name) {
+			return nil, t.err != nil
+		}
+		p, ok := t.textArg(c.Args[0], name)
+		if !ok {
+			return nil, true
+		}
+		return &fxRes{call: ioNS + "readDir io " + t.fsx() + " " + p, results: []*ty{tDirEs, tErr}}, true
 	case "os.Remove":
 		if len(c.Args) != 1 || !t.needRW(name) {
 			return nil, true
@@ -436,6 +445,11 @@ func (t *ftr) fxTranslated(name string, d *doneFn, c *ast.CallExpr) *fxRes {
 				found = true
 			}
 		}
+		if !found && xp.name == "skipped" && t.sp.fx == "st" {
+			// skippedTests.values is a field of the state
+			lead = append(lead, "st.skipped")
+			continue
+		}
 		if !found {
 			t.fail("call of %s needs parameter %s, which %s does not have", name, xp.name, t.sp.name)
 			return nil
@@ -452,6 +466,17 @@ func (t *ftr) fxTranslated(name string, d *doneFn, c *ast.CallExpr) *fxRes {
 		if !t.needFS(name) || (d.spec.fx == "rw" && !t.needRW(name)) {
 			return nil
 		}
+		if d.spec.prints {
+			switch {
+			case t.sp.fx == "st":
+				lead = append([]string{"st.stdout"}, lead...)
+			case t.sp.prints:
+				lead = append([]string{"stdout"}, lead...)
+			default:
+				t.fail("%s prints, but %s is not declared `prints`", name, t.sp.name)
+				return nil
+			}
+		}
 		lead = append([]string{"io", t.fsx()}, lead...)
 	}
 	a, p, ok := t.args(name, c, d.params)
@@ -465,6 +490,9 @@ func (t *ftr) fxTranslated(name string, d *doneFn, c *ast.CallExpr) *fxRes {
 	fr := &fxRes{call: d.ns() + leanDefName(name) + " " + strings.Join(append(lead, a...), " "), partial: d.partial}
 	if d.spec.fx == "rw" {
 		fr.outs = append(fr.outs, "fs")
+		if d.spec.prints {
+			fr.outs = append(fr.outs, "stdout")
+		}
 	}
 	if d.spec.fx == "st" {
 		fr.outs = append(fr.outs, "st")
@@ -523,6 +551,10 @@ func (t *ftr) setOut(b *strings.Builder, ind, o, val string) {
 		fmt.Fprintf(b, "%sfs := %s\n", ind, val)
 	case o == "st":
 		fmt.Fprintf(b, "%sst := %s\n", ind, val)
+	case o == "stdout" && t.sp.fx == "st":
+		fmt.Fprintf(b, "%sst := { st with stdout := %s }\n", ind, val)
+	case o == "stdout":
+		fmt.Fprintf(b, "%sstdout := %s\n", ind, val)
 	case strings.HasPrefix(o, "st:"):
 		fmt.Fprintf(b, "%sst := { st with %s := %s }\n", ind, o[3:], val)
 	default:
@@ -554,6 +586,14 @@ func (t *ftr) ioExpr(e ast.Expr, hint *ty) (ex, bool) {
 			if hint != nil && hint.k == "texts" {
 				return ex{"([] : List (List UInt8))", tTexts, false}, true
 			}
+		case "isCI":
+			if t.lookup(e.Name) == nil && t.sp.fx == "st" {
+				return ex{"st.env.isCI", tBool, false}, true
+			}
+		case "shouldClean":
+			if t.lookup(e.Name) == nil && t.sp.fx == "st" {
+				return ex{"(GoSnaps.Generated.shouldClean st.env)", tBool, false}, true
+			}
 		case "errSnapNotFound":
 			if t.lookup(e.Name) == nil && t.sp.pkg == "snaps" {
 				if c, ok := t.pkg.values[e.Name].(*ast.CallExpr); ok && selName(c.Fun) == "errors.New" {
@@ -581,6 +621,24 @@ func (t *ftr) ioExpr(e ast.Expr, hint *ty) (ex, bool) {
 						return ex{"GoSnaps.Generated.go_" + id.Name, tText, false}, true
 					}
 				}
+			}
+		}
+	case *ast.SelectorExpr:
+		if id, ok := e.X.(*ast.Ident); ok {
+			if vt := t.lookup(id.Name); vt != nil && vt.k == "godecls" && e.Sel.Name == "Decls" {
+				return ex{t.ln(id.Name), tDecls, false}, true
+			}
+		}
+		if t.sp.fx == "st" {
+			switch t.src(e) {
+			case "testsRegistry.cleanup":
+				return ex{"st.reg.cleanup", tMap2, false}, true
+			case "standaloneTestsRegistry.cleanup":
+				return ex{"st.sreg.cleanup", tMap1, false}, true
+			case "skippedTests.values":
+				return ex{"st.skipped", tTexts, false}, true
+			case "testEvents.items":
+				return ex{"st.events", tMap1, false}, true
 			}
 		}
 	case *ast.CompositeLit:
@@ -667,6 +725,27 @@ func (t *ftr) ioExpr(e ast.Expr, hint *ty) (ex, bool) {
 					return x, true
 				}
 			}
+		case "token.NewFileSet":
+			if len(e.Args) == 0 {
+				return ex{"()", tUnit, false}, true
+			}
+		case "parser.ParseFile":
+			// parser.ParseFile(fset, path, nil, parser.ParseComments): the top-level declarations of the file
+			// at `path`, or an error — a parameter (`parseFile`) of the translated function
+			if len(e.Args) == 4 && t.src(e.Args[2]) == "nil" && t.src(e.Args[3]) == "parser.ParseComments" {
+				fs0 := t.expr(e.Args[0])
+				p := t.expr(e.Args[1])
+				if t.err == nil && fs0.t.k == "unit" && p.t.k == "text" {
+					for _, xp := range t.sp.extra {
+						if xp.name == "parseFile" {
+							return ex{"(parseFile " + p.s + ")", pairOf(tDecls, tErr), p.p}, true
+						}
+					}
+				}
+			}
+			t.fail("unsupported parser.ParseFile call")
+			return ex{}, true
+		case "funcDecl.Name.String", "funcDecl.Name.Name":
 		case "colors.Sprint":
 			// NO_COLOR rendering: the text itself
 			if len(e.Args) == 2 {
@@ -739,9 +818,20 @@ func (t *ftr) ioExpr(e ast.Expr, hint *ty) (ex, bool) {
 				return ex{}, true
 			}
 		}
+		if sel, ok := e.Fun.(*ast.SelectorExpr); ok && sel.Sel.Name == "String" && len(e.Args) == 0 {
+			if s2, ok := sel.X.(*ast.SelectorExpr); ok && s2.Sel.Name == "Name" {
+				if id, ok := s2.X.(*ast.Ident); ok && t.lookup(id.Name) != nil && t.lookup(id.Name).k == "godecl" {
+					return ex{t.ln(id.Name) + ".name", tText, false}, true
+				}
+			}
+		}
 		if id, m, c, ok := recvCall(e); ok {
 			if vt := t.lookup(id.Name); vt != nil {
 				switch {
+				case vt.k == "dirent" && m == "IsDir" && len(c.Args) == 0:
+					return ex{t.ln(id.Name) + ".isDir", tBool, false}, true
+				case vt.k == "dirent" && m == "Name" && len(c.Args) == 0:
+					return ex{t.ln(id.Name) + ".name", tText, false}, true
 				case vt.k == "set" && m == "Has" && len(c.Args) == 1:
 					x := t.expr(c.Args[0])
 					if t.err == nil && x.t.k == "text" {
@@ -795,6 +885,10 @@ func (t *ftr) ioStmt(b *strings.Builder, ind string, st ast.Stmt, res *ty) bool 
 					fmt.Fprintf(b, "%slet mut %s := ([] : List UInt8)\n", ind, leanIdent(n.Name))
 					t.bind(n.Name, tText)
 					t.builder[n.Name] = true
+				case t.src(vs.Type) == "CleanOpts" && t.pkg.structIs("CleanOpts", "Sort:bool"):
+					// the zero CleanOpts: Sort = false
+					t.muts[n.Name] = true
+					t.define(b, ind, n.Name, ex{"false", tCOpt, false})
 				case goType(vs.Type) != nil && goType(vs.Type).k == "bool":
 					t.define(b, ind, n.Name, ex{"false", tBool, false})
 				case goType(vs.Type) != nil && goType(vs.Type).k == "int":
@@ -957,6 +1051,36 @@ func (t *ftr) ioStmt(b *strings.Builder, ind string, st ast.Stmt, res *ty) bool 
 				return true
 			}
 		}
+		if c, ok := s.X.(*ast.CallExpr); ok && selName(c.Fun) == "fmt.Println" && len(c.Args) == 1 {
+			x := t.expr(c.Args[0])
+			if t.err != nil {
+				b.WriteString(ind + "sorry\n")
+				return true
+			}
+			if x.t.k == "err" {
+				x = ex{"(" + x.s + ").text", tText, x.p}
+			}
+			if x.t.k != "text" || x.p {
+				t.stmtFail(b, ind, "fmt.Println of %s", x.t.lean())
+				return true
+			}
+			switch {
+			case t.sp.fx == "st":
+				fmt.Fprintf(b, "%sst := { st with stdout := st.stdout ++ %s ++ [(10 : UInt8)] }\n", ind, x.s)
+			case t.sp.prints:
+				fmt.Fprintf(b, "%sstdout := stdout ++ %s ++ [(10 : UInt8)]\n", ind, x.s)
+			default:
+				t.stmtFail(b, ind, "%s prints but is not declared `prints`", t.sp.name)
+			}
+			return true
+		}
+		if id, m, c, ok := recvCall(s.X); ok && t.lookup(id.Name) == nil && id.Name == "skippedTests" && m == "append" && len(c.Args) == 1 && t.sp.fx == "st" {
+			x := t.expr(c.Args[0])
+			if t.err == nil && x.t.k == "text" && !x.p {
+				fmt.Fprintf(b, "%sst := { st with skipped := st.skipped ++ [%s] }\n", ind, x.s)
+				return true
+			}
+		}
 		// colors.Fprint(&sb, colour, text): NO_COLOR rendering appends the text
 		if c, ok := s.X.(*ast.CallExpr); ok && selName(c.Fun) == "colors.Fprint" && len(c.Args) == 3 {
 			if u, ok := c.Args[0].(*ast.UnaryExpr); ok && u.Op == token.AND {
@@ -1066,6 +1190,14 @@ func (t *ftr) rangeMap1(s *ast.RangeStmt, xs ex, k, v, ind string, res *ty) stri
 
 // exprMulti: an expression in a position that receives n values
 func (t *ftr) exprMulti(e ast.Expr, n int) ex {
+	// d, ok := decl.(*ast.FuncDecl)
+	if ta, ok := e.(*ast.TypeAssertExpr); ok && n == 2 && ta.Type != nil && t.src(ta.Type) == "*ast.FuncDecl" {
+		x := t.expr(ta.X)
+		if t.err == nil && x.t.k == "godecl" {
+			return ex{"(" + x.s + ", " + x.s + ".isFunc)", pairOf(tDecl, tBool), false}
+		}
+		return t.fail("unsupported type assertion %s", t.src(e))
+	}
 	// v, ok := m[k]
 	if ix, isIx := e.(*ast.IndexExpr); isIx && n == 2 {
 		x := t.expr(ix.X)
@@ -1213,6 +1345,36 @@ func (t *ftr) mapAssign(b *strings.Builder, ind string, ix *ast.IndexExpr, tok t
 		t.stmtFail(b, ind, "unsupported map assignment %s", t.src(ix))
 	}
 	return true
+}
+
+// structIs: is the package-level type `name` a struct with exactly the fields "a:T,b:U"?
+func (p *pkgInfo) structIs(name, want string) bool {
+	for _, f := range p.files {
+		for _, d := range f.Decls {
+			gd, ok := d.(*ast.GenDecl)
+			if !ok || gd.Tok != token.TYPE {
+				continue
+			}
+			for _, sp := range gd.Specs {
+				ts := sp.(*ast.TypeSpec)
+				if ts.Name.Name != name {
+					continue
+				}
+				st, ok := ts.Type.(*ast.StructType)
+				if !ok {
+					return false
+				}
+				var got []string
+				for _, fl := range st.Fields.List {
+					for _, n := range fl.Names {
+						got = append(got, n.Name+":"+selName(fl.Type))
+					}
+				}
+				return strings.Join(got, ",") == want
+			}
+		}
+	}
+	return false
 }
 
 // assignedAnywhere: is the package-level variable assigned in any function of the package?
